@@ -33,7 +33,9 @@ META = {
         "Structural necessary conditions of local '#target' link resolution, decided on syntax trees, CFGs (dominance, guard facts, path "
         "counting) and small agreement checks between writers and readers. A function that was split into private helpers "
         "(ResolveAnchorIds.apply, clean_astext) is analysed with the helpers inlined (same class / same module, two levels; helpers with "
-        "early returns that only inspect the node and add children are summarised instead). "
+        "early returns that only inspect the node and add children are summarised instead; a helper whose trailing return value the caller "
+        "discards is inlined too). The reference loop may select its nodes by class plus an in-loop marker test or by a predicate "
+        "(lambda / method / function) `isinstance(n, nodes.reference) and n.get(<marker>) ...` handed to findall. "
         "R1 dispatch: every way out of render_link other than render_link_anchor - direct self.render_link_* calls and "
         "getattr(self, TABLE[scheme])(token) table dispatch - is unreachable for an href that starts with '#' (negated '#' test, a scheme "
         "test whose regex provably cannot match a leading '#', or a tabled pre-emption: the three config flags, the class 'external' "
@@ -62,7 +64,8 @@ META = {
         "re-bound or concatenated onto it. "
         "R6 title extraction: for each heading node render_heading creates (section with a nodes.title child; rubric that is its own "
         "title) the resolver's title extraction has a case on the same subject (node itself / child of that class), and a search over "
-        "the children examines every child (no unconditional loop exit, no slice), also when it is a pre-filtering comprehension; where the "
+        "the children examines every child (no unconditional loop exit, no slice) and only the direct children (a findall/traverse over all "
+        "descendants takes a nested element's title), also when it is a pre-filtering comprehension; where the "
         "lookup tests for a definition list / field list, a walk over the CFG with the node's class as state (docutils content model: "
         "definition_list -> definition_list_item -> term, field_list -> field -> field_name) reaches a title text with the term / field name. "
         "R7 unique slug keys: the key under which a heading enters the slug registry was tested absent from it after its last "
@@ -823,7 +826,9 @@ class _Inliner:
         rets = [n for b in body for n in [b] + list(walk_local(b)) if isinstance(n, ast.Return)]
         ret_expr = None
         if mode == "stmt":
-            if rets:
+            if len(rets) == 1 and rets[0] is body[-1] and (rets[0].value is None or isinstance(rets[0].value, (ast.Name, ast.Constant))):
+                body = body[:-1]  # the returned value is discarded by the caller
+            elif rets:
                 return None  # early returns: summarised by the caller-side helper model instead
         else:
             if len(rets) != 1 or rets[0] is not body[-1] or rets[0].value is None:
@@ -942,7 +947,8 @@ class Resolver:
         self.m = fi.module
         self.cfg = get_cfg(fi)
         # the loop over reference nodes
-        loops = [n for n in fi.local_nodes() if isinstance(n, ast.For) and isinstance(n.target, ast.Name) and self._is_reference_cls(n.iter)]
+        self.pred_marker: str | None = None
+        loops = [n for n in fi.local_nodes() if isinstance(n, ast.For) and isinstance(n.target, ast.Name) and (self._is_reference_cls(n.iter) or self._reference_predicate(n.iter) is not None)]
         if len(loops) != 1:
             raise Unsupported(f"expected one loop over nodes.reference in {fi.qualname}, found {len(loops)}")
         self.loop = loops[0]
@@ -962,6 +968,11 @@ class Resolver:
                             self.gate, self.gate_key, self.start = st, key, ("T" if pol else "F", st)
             if self.gate is not None:
                 break
+        if self.gate is None:
+            # the marker may be tested by the predicate that selects the nodes: findall(document)(self._is_id_link)
+            pm = self._reference_predicate(self.loop.iter)
+            if pm is not None:
+                self.gate, self.gate_key, self.start, self.pred_marker = self.loop, pm, ("T", self.loop), pm
         if self.gate is None:
             raise Unsupported("no marker test (`refnode.get(<key>)`) at the top of the reference loop")
         # the target text
@@ -1060,6 +1071,42 @@ class Resolver:
                 raise Unsupported(f"unmodelled message emission in the reference loop: {short(n, 60)}")
 
     # -- recognisers -----------------------------------------------------------
+    def _reference_predicate(self, it: ast.AST) -> str | None:
+        """Marker key if the iterator selects nodes with a predicate `isinstance(n, nodes.reference) and n.get(<marker>) ...`
+        (a lambda, a same-class method or a same-module function); None otherwise."""
+        for x in ast.walk(it):
+            body, prm, ctx = None, None, self.fi
+            if isinstance(x, ast.Lambda) and len(x.args.args) == 1:
+                body, prm = x.body, x.args.args[0].arg
+            else:
+                h = None
+                if isinstance(x, ast.Attribute) and isinstance(x.value, ast.Name) and x.value.id in ("self", "cls") and self.fi.cls is not None and not (isinstance(getattr(x, "_parent", None), ast.Call) and x._parent.func is x):
+                    h = self.corpus.lookup_method(self.fi.cls, x.attr)
+                elif isinstance(x, ast.Name) and x.id in self.m.functions and not (isinstance(getattr(x, "_parent", None), ast.Call) and x._parent.func is x):
+                    h = self.m.functions[x.id]
+                if h is None or h.is_lambda:
+                    continue
+                ps = [q for q in h.params if q not in ("self", "cls")]
+                rets = [r for r in h.local_nodes() if isinstance(r, ast.Return)]
+                if len(ps) != 1 or len(rets) != 1 or rets[0].value is None:
+                    continue
+                body, prm, ctx = rets[0].value, ps[0], h
+            conj = facts(body, True)
+            is_ref = any(p and isinstance(e, ast.Call) and dotted(e.func) == "isinstance" and len(e.args) == 2 and isinstance(e.args[0], ast.Name) and e.args[0].id == prm
+                         and "reference" in (_node_classes(ctx, e.args[1]) or set()) for e, p in conj)
+            if not is_ref:
+                continue
+            for e, p in conj:
+                if not p:
+                    continue
+                while isinstance(e, ast.Call) and dotted(e.func) == "bool" and len(e.args) == 1:
+                    e = e.args[0]
+                if isinstance(e, ast.Call) and isinstance(e.func, ast.Attribute) and e.func.attr == "get" and isinstance(e.func.value, ast.Name) and e.func.value.id == prm and e.args and isinstance(e.args[0], ast.Constant):
+                    return e.args[0].value
+                if isinstance(e, ast.Subscript) and isinstance(e.value, ast.Name) and e.value.id == prm and isinstance(e.slice, ast.Constant) and isinstance(e.slice.value, str):
+                    return e.slice.value
+        return None
+
     def _is_reference_cls(self, e: ast.AST) -> bool:
         return any(isinstance(c, (ast.Attribute, ast.Name)) and self.m.resolve(dotted(c) or "") == "docutils.nodes.reference" for c in ast.walk(e))
 
@@ -1494,9 +1541,9 @@ def r2_attribute_agreement(corpus: Corpus, rep: Report, tier: str):
     whole = False
     if isinstance(it, ast.Call):
         inner = it.func
-        if isinstance(inner, ast.Call) and dotted(inner.func) == "findall" and len(inner.args) == 1 and unparse(inner.args[0]) == "self.document" and len(it.args) == 1 and not it.keywords and rs._is_reference_cls(it.args[0]):
+        if isinstance(inner, ast.Call) and dotted(inner.func) == "findall" and len(inner.args) == 1 and unparse(inner.args[0]) == "self.document" and len(it.args) == 1 and not it.keywords and (rs._is_reference_cls(it.args[0]) or rs._reference_predicate(it.args[0]) is not None):
             whole = True
-        if isinstance(inner, ast.Attribute) and inner.attr in ("findall", "traverse") and unparse(inner.value) == "self.document" and len(it.args) == 1 and not it.keywords and rs._is_reference_cls(it.args[0]):
+        if isinstance(inner, ast.Attribute) and inner.attr in ("findall", "traverse") and unparse(inner.value) == "self.document" and len(it.args) == 1 and not it.keywords and (rs._is_reference_cls(it.args[0]) or rs._reference_predicate(it.args[0]) is not None):
             whole = True
     if whole:
         rep.ok(R2, k, rs.m.site(rs.loop), short(it, 60))
@@ -1506,7 +1553,7 @@ def r2_attribute_agreement(corpus: Corpus, rep: Report, tier: str):
         rep.violation(R2, k, rs.m.site(rs.loop), f"`{short(it, 60)}` does not walk the whole document: links outside it are never resolved")
     # the gate rejects without touching the node
     reject = ("F" if rs.start[0] == "T" else "T", rs.gate)
-    touched = [o for _, o, _ in rs.outcome_stmts() if cfg.paths_avoiding(reject, o, lambda n: n is rs.loop)]
+    touched = [] if rs.pred_marker is not None else [o for _, o, _ in rs.outcome_stmts() if cfg.paths_avoiding(reject, o, lambda n: n is rs.loop)]
     k = f"{fi.fq}|references without the marker are left alone"
     if touched:
         rep.violation(R2, k, rs.m.site(rs.gate), f"a reference without {rs.gate_key!r} reaches `{short(touched[0], 50)}`")
@@ -2561,6 +2608,17 @@ def _title_cases(f: FunctionInfo, node_vars: set[str], region: list[ast.AST]) ->
         else:
             its = [st for _, _, st in _bindings(f, x.id) if isinstance(st, (ast.For, ast.comprehension))]
             src = its[0].iter if len(its) == 1 and len(_bindings(f, x.id)) == 1 else None
+            deep_call = None
+            for c_ in ast.walk(src) if src is not None else []:
+                if isinstance(c_, ast.Call) and (dotted(c_.func) or "").rsplit(".", 1)[-1] in ("findall", "traverse"):
+                    root = c_.args[0] if c_.args and isinstance(c_.func, ast.Name) else (c_.func.value if isinstance(c_.func, ast.Attribute) else None)
+                    if isinstance(root, ast.Name) and root.id in node_vars:
+                        deep_call = c_
+            if deep_call is not None:
+                # a search over ALL descendants of the target node: not the "child" relation the writers establish
+                dcls = {c for x in ast.walk(src) for c in (_node_classes(f, x) or set()) if isinstance(x, (ast.Attribute, ast.Name))}
+                cases.append(("descendant", dcls or None, n, f"`{short(src, 50)}` searches all descendants of the target node"))
+                continue
             if isinstance(src, ast.Subscript) and isinstance(src.slice, ast.Slice):
                 limit = f"`{short(its[0].iter, 40)}` iterates over a slice of the children only"
                 src = src.value
@@ -2819,6 +2877,15 @@ def r6_title_extraction(corpus: Corpus, rep: Report, tier: str):
             f"an empty link to an explicit target on such a heading shows '#name' instead of the heading text",
         )
     for rel, classes, site_node, limit in cases:
+        if rel == "descendant":
+            rep.violation(
+                "C09.R6",
+                f"{fi.fq}|title search `{short(site_node, 40)}` looks at the direct children of the target node only",
+                m.site(site_node),
+                f"{limit}: the title/caption of a *nested* element (a figure or admonition inside a labelled block quote or list, a sub-section) is taken for the target's own title, "
+                "so an empty link to a target that has no title shows a foreign title instead of '#name' (and a captioned child no longer wins over a deeper title that comes first)",
+            )
+            continue
         if rel != "child":
             continue
         k = f"{fi.fq}|title search `{short(site_node, 40)}` examines every child of the target node"
@@ -3083,8 +3150,9 @@ def r9_title_text_sanitised(corpus: Corpus, rep: Report, tier: str):
 
     steps = []
     for n in f.local_nodes():
-        if isinstance(n, ast.For) and any(isinstance(c, ast.Call) and (dotted(c.func) or "").rsplit(".", 1)[-1] in ("findall", "traverse") for c in ast.walk(n.iter)):
-            cls, odd = step_classes(n.iter)
+        it_src = _iter_source(f, n.iter) if isinstance(n, ast.For) else None
+        if isinstance(n, ast.For) and any(isinstance(c, ast.Call) and (dotted(c.func) or "").rsplit(".", 1)[-1] in ("findall", "traverse") for c in ast.walk(it_src)):
+            cls, odd = step_classes(it_src)
             if odd:
                 rep.error(R9, f"{f.module.site(n)}: the condition of `{short(n.iter, 60)}` is not a plain isinstance predicate")
             if cls:
@@ -3767,4 +3835,14 @@ def mutants(corpus: Corpus):
         add("c09-title-walk-descends-to-last-child", "C09.R6", tr, splice(tr.src, d2.body[0].value.slice, "-1"), "is its first nodes.")
     else:
         out.append(("c09-title-walk-second-descent-exclusive", "the two `node = node[0]` descents were not found in this shape"))
+    # ---- R6: the title search widened from the children to all descendants -----------------------------------------------------------------
+    tloop = None
+    if child_isinst is not None:
+        for a in _ancestors(child_isinst):
+            if isinstance(a, ast.For):
+                tloop = a
+                break
+    if tloop is not None:
+        add("c09-title-search-over-all-descendants", "C09.R6", tr, splice(tr.src, tloop.iter, f"findall({_seg(tr, tloop.iter)})(nodes.Element)"), "direct children of the target node only")
+        add("c09-title-search-traverse-descendants", "C09.R6", tr, splice(tr.src, tloop.iter, f"{_seg(tr, tloop.iter)}.findall(nodes.Titular)"), "direct children of the target node only")
     return out
